@@ -116,11 +116,51 @@ def impl_eval(case):
             why = f'decrypting returns PIN {back!r} ({st2})'
         return {'obs': f'ok {clear.hex()} {st2} {common.dotted(back or "")}', 'violation': why,
                 'tags': ['enc4', f'keylen:{len(key) // 2}']}
+    if k == 'enc4tdes':
+        # format 4 (a 16-byte block = two DES blocks) under the TDES mix-in: ECB of both blocks
+        key, rnd = case['key'], case['rnd']
+
+        class Iso4Tdes(pb.Iso4PinBlock, pb.TdesEncryptedPinBlockMixin):
+            pass
+        st, res = guarded(lambda: (Iso4Tdes(pin, random_value=rnd).to_enc_bytes(key), Iso4Tdes(pin, random_value=rnd).to_bytes()))
+        if st != 'ok':
+            return {'obs': st, 'violation': f'to_enc_bytes raised {st}', 'tags': ['enc4tdes']}
+        enc, clear = res
+        st2, back = guarded(lambda: Iso4Tdes.from_enc_bytes(enc, key).pin)
+        if enc != refdes.tdes_ecb(clear, binascii.unhexlify(key)):
+            why = 'encrypted block is not the 3DES-ECB encryption of the 16-byte clear block (DES reference)'
+        elif clear != spec_iso4(pin, rnd):
+            why = 'clear block is not ISO 9564 format 4'
+        elif back != pin:
+            why = f'decrypting returns PIN {back!r} ({st2})'
+        return {'obs': f'ok {clear.hex()} {st2} {common.dotted(back or "")}', 'violation': why,
+                'tags': ['enc4tdes', f'keylen:{len(key) // 2}']}
+    if k == 'iso4same':
+        # ONE object stands for one block: serialising it twice, or encrypting it, uses the same fill
+        key = case['key']
+        from cryptography.hazmat.primitives.ciphers import Cipher, algorithms, modes
+        o = pb.Iso4AESPinBlockWithVisaPVV(pin)
+        a, b = o.to_bytes(), o.to_bytes()
+        enc = o.to_enc_bytes(key)
+        d = Cipher(algorithms.AES(binascii.unhexlify(key)), modes.ECB()).decryptor()
+        clear = d.update(enc) + d.finalize()
+        if a != b:
+            why = 'two serialisations of one format-4 block object differ (the fill is drawn again)'
+        elif clear != a:
+            why = 'to_enc_bytes does not encrypt the block that to_bytes returns'
+        elif a[:8] != spec_iso4(pin, 1)[:8]:
+            why = 'PIN half of the block is not ISO 9564 format 4'
+        return {'obs': 'ok ' + a[:8].hex(), 'violation': why, 'tags': ['iso4same']}
     raise ValueError(k)
 
 
 def model_line(case):
+    if case['k'] == 'iso4same':
+        return None
     pin = common.dotted(case['pin'])
+    if case['k'] == 'enc4tdes':
+        rnd = case['rnd']
+        return [f"pin.iso4\t{common.dotted(case['pin'])}\t{rnd}", f"pin.iso4from\t{spec_iso4(case['pin'], rnd).hex()}"]
     if case['k'] in ('iso0', 'enc0'):
         pan = common.dotted(case['pan'])
         return [f'pin.iso0\t{pin}\t{pan}', f"pin.iso0from\t{spec_iso0(case['pin'], case['pan']).hex()}\t{pan}"]
@@ -162,4 +202,7 @@ def explore(run, tier):
         cases.append({'k': 'enc0', 'pin': digits(pl), 'pan': digits(13 + i % 7), 'key': key})
         akey = bytes(rng.getrandbits(8) for _ in range([16, 24, 32][i % 3])).hex()
         cases.append({'k': 'enc4', 'pin': digits(pl), 'rnd': rng.getrandbits(64) or 1, 'key': akey})
+        if i % 4 == 0:
+            cases.append({'k': 'enc4tdes', 'pin': digits(pl), 'rnd': rng.getrandbits(64) or 1, 'key': key})
+            cases.append({'k': 'iso4same', 'pin': digits(pl), 'key': akey})
     run.correspond(__name__, cases, use_model=run.use_model, chunk=300)
